@@ -46,11 +46,11 @@ W.contract(
 @W.spec([STR], STR)
 def pyq(s):
     """body of the Python string literal emitted for the token text s: back-quote escapes dropped, other
-    backslash pairs kept, double quote and newline escaped"""
+    backslash pairs kept, a backslash that ends the text doubled, double quote and newline escaped"""
     return (
         ""
         if len(s) == 0
-        else (("`" if s[1:2] == "`" else "\\" + s[1:2]) + pyq(s[2:]))
+        else (("`" if s[1:2] == "`" else ("\\\\" if len(s) == 1 else "\\" + s[1:2])) + pyq(s[2:]))
         if s[0] == "\\"
         else ('\\"' + pyq(s[1:]))
         if s[0] == '"'
@@ -145,9 +145,9 @@ def pyval(q):
 
 @W.spec([STR], BOOL)
 def lit_ok(q):
-    """q is the body of exactly one double-quoted Python literal (or ends in a lone backslash, which
-    makes the whole output uncompilable): no bare double quote, no raw newline"""
-    return True if len(q) == 0 else ((len(q) == 1 or lit_ok(q[2:])) if q[0] == "\\" else (q[0] != '"' and q[0] != "\n" and lit_ok(q[1:])))
+    """q is the body of exactly one double-quoted Python literal: no bare double quote, no raw newline, every
+    backslash followed by a character (so the closing quote is not escaped and the statement compiles)"""
+    return True if len(q) == 0 else ((len(q) >= 2 and lit_ok(q[2:])) if q[0] == "\\" else (q[0] != '"' and q[0] != "\n" and lit_ok(q[1:])))
 
 
 W.lemma(
@@ -158,10 +158,11 @@ W.lemma(
     hints=["unfold(pyq(s))", "unfold(lit_ok(pyq(s)))", "unfold(pyq(s[2:]))", "unfold(lit_ok(''))"],
     asserts=["implies(len(s) >= 1 and s[0] != '\\\\' and s[0] != '\"' and s[0] != '\\n', (s[0] + pyq(s[1:]))[1:] == pyq(s[1:]))",
              "implies(len(s) >= 1, ('\\\\\"' + pyq(s[1:]))[2:] == pyq(s[1:]) and ('\\\\n' + pyq(s[1:]))[2:] == pyq(s[1:]))",
-             "implies(len(s) >= 2, ('\\\\' + s[1:2] + pyq(s[2:]))[2:] == pyq(s[2:]) and ('`' + pyq(s[2:]))[1:] == pyq(s[2:]))"],
+             "implies(len(s) >= 2, ('\\\\' + s[1:2] + pyq(s[2:]))[2:] == pyq(s[2:]) and ('`' + pyq(s[2:]))[1:] == pyq(s[2:]))",
+             "implies(len(s) == 1, pyq(s[2:]) == '' and ('\\\\\\\\' + pyq(s[2:]))[2:] == '')"],
     fuel=0,
-    props=["C18", "C06"],
-    note="whatever the program's string contains, the text between the emitted double quotes has no bare quote and no raw newline: it is one constant",
+    props=["C18", "C06", "C02"],
+    note="whatever the program's string contains (also a two-character string ending in a backslash), the text between the emitted double quotes has no bare quote, no raw newline and no unpaired backslash: it is one constant and the statement compiles",
 )
 
 W.lemma(
